@@ -135,6 +135,220 @@ pub fn round(out: &mut Out, grid: &Grid, queries: Vec<Vec<Q>>, label: &str) {
     out.emit(json!({"op":"ns.round","label":label,"threads":n,"finished":done,"outcome": if done == n { "ok" } else { "timeout" }}));
 }
 
+// ---- replay of model-checked interleavings (MC_NsReplay) ----
+// Every real thread stops at the hook's gate before each cache touch / guard drop; the scheduler releases them one
+// touch at a time in the order of the model's history and compares the touch the implementation is about to make
+// (kind, map, key) with the model's.
+mod sched {
+    use std::collections::HashMap;
+    use std::sync::{Condvar, Mutex};
+    use std::time::{Duration, Instant};
+
+    #[derive(Default)]
+    pub struct State {
+        pub waiting: HashMap<u64, (String, u64, String)>,
+        pub arrivals: HashMap<u64, u64>,
+        pub granted: Option<u64>,
+        pub finished: HashMap<u64, bool>,
+        pub free_run: bool,
+    }
+    pub static STATE: Mutex<Option<State>> = Mutex::new(None);
+    pub static CV: Condvar = Condvar::new();
+
+    pub fn gate(thread: u64, op: &'static str, map: u64, key: &str) {
+        let mut g = STATE.lock().unwrap_or_else(|e| e.into_inner());
+        match g.as_mut() {
+            Some(st) if !st.free_run => {
+                st.waiting.insert(thread, (op.to_string(), map, key.to_string()));
+                *st.arrivals.entry(thread).or_insert(0) += 1;
+            }
+            _ => return,
+        }
+        CV.notify_all();
+        loop {
+            match g.as_mut() {
+                Some(st) if !st.free_run && st.granted != Some(thread) => {}
+                Some(st) => {
+                    if st.granted == Some(thread) {
+                        st.granted = None;
+                    }
+                    st.waiting.remove(&thread);
+                    break;
+                }
+                None => break,
+            }
+            g = CV.wait(g).unwrap_or_else(|e| e.into_inner());
+        }
+        CV.notify_all();
+    }
+
+    pub fn finished(thread: u64) {
+        let mut g = STATE.lock().unwrap_or_else(|e| e.into_inner());
+        if let Some(st) = g.as_mut() {
+            st.finished.insert(thread, true);
+        }
+        CV.notify_all();
+    }
+
+    /// waits until `pred` holds on the state or the time is up
+    pub fn wait_for(limit: Duration, pred: impl Fn(&State) -> bool) -> bool {
+        let deadline = Instant::now() + limit;
+        let mut g = STATE.lock().unwrap_or_else(|e| e.into_inner());
+        loop {
+            if g.as_ref().map(&pred).unwrap_or(true) {
+                return true;
+            }
+            let left = deadline.saturating_duration_since(Instant::now());
+            if left.is_zero() {
+                return false;
+            }
+            g = CV.wait_timeout(g, left).unwrap_or_else(|e| e.into_inner()).0;
+        }
+    }
+}
+
+static SHARD_TABLE: std::sync::Mutex<Vec<(String, usize)>> = std::sync::Mutex::new(Vec::new());
+fn forced_shard(key: &str) -> Option<usize> {
+    SHARD_TABLE.lock().ok()?.iter().find(|(k, _)| k == key).map(|(_, i)| *i)
+}
+
+/// the diamond graph of MC_NsCache / MC_NsReplay, `is` lists in the rank order the model iterates in
+fn model_grid() -> Grid {
+    let rows: Vec<(String, Vec<String>)> = vec![("a", vec!["b", "c"]), ("b", vec!["d"]), ("c", vec!["d", "u"]), ("d", vec![])]
+        .into_iter()
+        .map(|(d, is)| (d.to_string(), is.into_iter().map(|s| s.to_string()).collect()))
+        .collect();
+    grid_of(&rows, false)
+}
+
+pub fn replay(out: &mut Out, vec: &J) -> Result<(), String> {
+    use std::time::Duration;
+    let grid = model_grid();
+    // programs, in thread-name order
+    let progs = vec["progs"].as_object().ok_or("progs")?;
+    let mut names: Vec<&String> = progs.keys().collect();
+    names.sort();
+    let queries: Vec<Vec<Q>> = names.iter().map(|n| progs[*n].as_array().ok_or("prog")?.iter().map(q_of).collect::<Result<Vec<Q>, String>>()).collect::<Result<_, _>>()?;
+    let tid = |name: &str| names.iter().position(|n| n.as_str() == name).map(|i| i as u64 + 1);
+    // forced shard assignment (model shards 1..N -> indices 0..N-1 of 4 real shards)
+    {
+        let mut t = SHARD_TABLE.lock().map_err(|_| "table")?;
+        t.clear();
+        for (k, v) in vec["shard"].as_object().ok_or("shard")? {
+            t.push((k.clone(), v.as_u64().unwrap_or(1) as usize - 1));
+        }
+    }
+    out.emit(load_event(&grid));
+    hooks::set_enabled(false);
+    hooks::set_gate(None);
+    hooks::set_forced_shards(None);
+    let solo: Vec<Vec<Vec<String>>> = queries.iter().map(|qs| qs.iter().map(|q| answer(leak(grid.clone()), q)).collect()).collect();
+    hooks::set_forced_shards(Some((4, forced_shard)));
+    let ns = leak(grid.clone());
+    hooks::set_forced_shards(None);
+    let _ = hooks::take_events();
+    *sched::STATE.lock().unwrap_or_else(|e| e.into_inner()) = Some(sched::State::default());
+    hooks::set_gate(Some(sched::gate));
+    hooks::set_enabled(true);
+    let n = queries.len();
+    for (t, qs) in queries.iter().cloned().enumerate() {
+        let solo_t = solo[t].clone();
+        std::thread::spawn(move || {
+            hooks::set_thread_id(t as u64 + 1);
+            for (i, q) in qs.iter().enumerate() {
+                hooks::note("qbegin", format!("{t}:{i}"), false, vec![]);
+                match guarded(|| answer(ns, q)) {
+                    Ok(a) => hooks::note("qend", format!("{t}:{i}"), a == solo_t[i], a),
+                    Err(p) => hooks::note("qpanic", format!("{t}:{i}"), false, vec![p]),
+                }
+            }
+            sched::finished(t as u64 + 1);
+        });
+    }
+    let steps = vec["steps"].as_array().ok_or("steps")?;
+    let limit = Duration::from_secs(5);
+    let mut outcome = "ok".to_string();
+    let mut detail = json!([]);
+    let mut done = 0usize;
+    let mut map_ids: std::collections::HashMap<String, u64> = std::collections::HashMap::new();
+    for (i, st) in steps.iter().enumerate() {
+        let t = tid(st["t"].as_str().unwrap_or("")).ok_or("step thread")?;
+        // the thread must arrive at a gate (or finish, which is a mismatch)
+        let arrived = sched::wait_for(limit, |s| s.waiting.contains_key(&t) || s.finished.contains_key(&t));
+        let (at, fin) = {
+            let g = sched::STATE.lock().unwrap_or_else(|e| e.into_inner());
+            let s = g.as_ref().unwrap();
+            (s.waiting.get(&t).cloned(), s.finished.contains_key(&t))
+        };
+        if !arrived {
+            outcome = "stuck".into();
+            detail = json!(["thread did not reach its next cache touch", i + 1, st]);
+            break;
+        }
+        let Some((op, map, key)) = at else {
+            outcome = if fin { "mismatch".into() } else { "stuck".into() };
+            detail = json!(["thread finished its program, the model has another touch", i + 1, st]);
+            break;
+        };
+        let want_map = st["map"].as_str().unwrap_or("").to_string();
+        let known = map_ids.get(&want_map).copied();
+        let map_ok = match known {
+            Some(id) => id == map,
+            None => !map_ids.values().any(|v| *v == map),
+        };
+        if op != st["kind"].as_str().unwrap_or("") || (op != "drop" && key != st["key"].as_str().unwrap_or("")) || !map_ok {
+            outcome = "mismatch".into();
+            detail = json!(["the implementation is about to make another cache touch than the model", i + 1, st, [op, map, key]]);
+            break;
+        }
+        map_ids.entry(want_map).or_insert(map);
+        let before = {
+            let mut g = sched::STATE.lock().unwrap_or_else(|e| e.into_inner());
+            let s = g.as_mut().unwrap();
+            s.granted = Some(t);
+            *s.arrivals.get(&t).unwrap_or(&0)
+        };
+        sched::CV.notify_all();
+        // the touch is complete when the thread stands at its next gate or has finished
+        let completed = sched::wait_for(limit, |s| s.finished.contains_key(&t) || *s.arrivals.get(&t).unwrap_or(&0) > before);
+        if !completed {
+            outcome = "stuck".into();
+            detail = json!(["a cache touch the model has enabled did not complete (blocked on a lock?)", i + 1, st]);
+            break;
+        }
+        done = i + 1;
+    }
+    if outcome == "ok" {
+        // no touch may be left over
+        let all = sched::wait_for(limit, |s| (1..=n as u64).all(|t| s.finished.contains_key(&t)) || !s.waiting.is_empty());
+        let g = sched::STATE.lock().unwrap_or_else(|e| e.into_inner());
+        let s = g.as_ref().unwrap();
+        if !all || !s.waiting.is_empty() {
+            outcome = "mismatch".into();
+            detail = json!(["the implementation makes more cache touches than the model", steps.len(), s.waiting.values().next().map(|w| json!([w.0, w.1, w.2]))]);
+        }
+    }
+    // let everything run out, then collect the log
+    {
+        let mut g = sched::STATE.lock().unwrap_or_else(|e| e.into_inner());
+        if let Some(s) = g.as_mut() {
+            s.free_run = true;
+        }
+    }
+    sched::CV.notify_all();
+    let finished_all = sched::wait_for(Duration::from_secs(10), |s| (1..=n as u64).all(|t| s.finished.contains_key(&t)));
+    hooks::set_enabled(false);
+    hooks::set_gate(None);
+    *sched::STATE.lock().unwrap_or_else(|e| e.into_inner()) = None;
+    let evs = hooks::take_events();
+    for j in hook_events_json(evs, &queries) {
+        out.emit(j);
+    }
+    out.emit(json!({"op":"ns.round","label":"replay","threads":n,"finished": if finished_all { n } else { 0 },"outcome": if finished_all { "ok" } else { "timeout" }}));
+    out.emit(json!({"op":"ns.replay","steps":steps.len(),"done":done,"outcome":outcome,"detail":detail}));
+    Ok(())
+}
+
 fn small_grid() -> Grid {
     // diamond a -> {b, c} -> d, undefined supertype u, a conjunct, an entity chain
     let rows: Vec<(String, Vec<String>)> = vec![
@@ -231,6 +445,7 @@ pub fn run(vec: &J, out: &mut Out) -> Result<(), String> {
             round(out, &grid, vec![qs], "history");
             Ok(())
         }
+        "ns.replay" => replay(out, vec),
         "ns.threads" => {
             // replay of a recorded round is not deterministic in schedule; re-run the same query mix
             let _ = text_of(&json!([]));
